@@ -34,12 +34,14 @@ PROPS = {
     'C05': {
         'run_vo': 'Dedup/Run.vo', 'props_vo': 'Properties/C05.vo', 'level': 'proof',
         'classes': {1: 'handler-re-executed-for-duplicate', 2: 'duplicate-not-answered-with-first-reply', 3: 'not-fresh-after-lifetime'},
-        'trusted': ['hook udp/client/export_verif.go (response-cache deadline shifting, own message-ID view)',
-                    'in-memory udp/client.Session + barrier request used to wait for dispatch (harness/udpmem.go)'],
-        'assumptions': ['one handleReq execution is atomic per message ID (msgIDMutex); time is modelled as validity left per cache entry, shifted by the harness instead of waiting 247 s'],
-        'level_text': 'Coq theorems (Properties/C05.v) over ALL event histories of the request-path model of udp/client.Conn: a cacheable request seen again within the lifetime never reaches the handler and is answered with the stored reply retargeted to the duplicate; after the lifetime it is fresh. Model tied to the real Conn by event-by-event correspondence over an in-memory session.',
-        'level_note': 'Trusted: Coq kernel + vm_compute, harness, verif hook; atomicity of one per-MID critical section rests on sync.Mutex; real 247 s waits replaced by deadline shifting.',
-        'explanation': 'Histories of CON/NON requests, duplicates, virtual ageing and ticks on a real udp/client.Conn (in-memory session); observed handler calls and emitted datagrams compared with the model step by step; the property predicate is evaluated on the observed history.',
+        'trusted': ['hook udp/client/export_verif.go (response-cache deadline shifting, own message-ID view, holders+waiters of a per-message-ID lock)',
+                    'in-memory udp/client.Session + barrier request used to wait for dispatch (harness/udpmem.go); second session type: a real dtls/server.Session over a scripted net.Conn',
+                    'thread model Dedup/Conc.v: the atomic actions of one copy are the accesses of handleReq to the shared state as read from the source (atomic own-ID counter, thread-safe cache keyed by message ID, per-key lock as a set of held keys; the lock map itself is Conn/MutexMap.v)'],
+        'assumptions': ['sync.Mutex excludes, atomic.Uint32 is atomic, one cache operation on one key is atomic (pkg/cache, proved linearizable under C14); time is modelled as validity left per cache entry, shifted by the harness instead of waiting 247 s; no time passes during a concurrent run',
+                        'a confirmable message sent by the application is acknowledged by the peer (the harness injects the ACK)'],
+        'level_text': 'Coq theorems (Properties/C05.v, 18). Part 1, over ALL event histories of the request-path model of udp/client.Conn (requests with handler behaviours none / response / replaced message / Reset / Empty code, request-monitor drops, pings, application sends, ageing, ticks): a cacheable request seen again within the lifetime never reaches the handler and is answered with the stored reply re-addressed to the duplicate; after the lifetime it is fresh; separate responses, sends, drops and pings never disturb this. The lifetime is generated from udp/client.ExchangeLifetime and proved equal to the RFC 7252 value. Part 2, over ALL schedules of one thread per received copy (atomic actions: own-ID check, Lock, cache lookup, handler + ID draw, cache store, Unlock, ID draw + write): a thread alone is exactly one model step; every execution is equivalent, up to the own message-ID counter, to the sequential history in lock-acquisition order; copies with different message IDs commute on the cache (the own counter does not: refuted with a witness); for any number of concurrent copies of one request the handler runs for the first lock holder only and every other copy gets the stored reply. Model tied to the real Conn by event-by-event correspondence over an in-memory session and a real DTLS session, incl. concurrent families.',
+        'level_note': 'Trusted: Coq kernel + vm_compute, harness, verif hook; the granularity of the thread model (which accesses are atomic) is read from the source, not extracted; real 247 s waits replaced by deadline shifting.',
+        'explanation': 'Histories of CON/NON requests (handler: none, response incl. Empty code, w.SetMessage, Reset), duplicates, request-monitor drops, pings, application sends (separate responses), virtual ageing and ticks on a real udp/client.Conn over an in-memory session and over a real dtls/server.Session; concurrent families with one goroutine per received message (copies of one request; copies of several confirmable requests with different message IDs; first handlers held until all other copies wait on their locks). Observed handler calls and emitted datagrams are compared with the model step by step; the property predicate is evaluated on the observed history.',
     },
     'C06': {
         'run_vo': 'Retx/Run.vo', 'props_vo': 'Properties/C06.vo', 'level': 'proof', 'confirm': True,
